@@ -209,7 +209,7 @@ def rule_text(r):
                 o = "@%s" % ref(it.out[1])
             else:
                 o = "_"
-            if it.assoc:
+            if it.assoc and not getattr(it, "assoc_implicit", False):
                 o += ":(%s)" % " ".join(ref(a) for a in it.assoc) if len(it.assoc) > 1 else ":%s" % ref(it.assoc[0])
             o += tag(i, "rhs")
             if it.attrs or it.attach:
@@ -1190,6 +1190,14 @@ def gen_match_rule(rng, prog, carets=False, no_pre=False):
             if near:
                 j = min(near, key=lambda j: abs(j - i))
                 it.assoc = [j + 1]
+    # a rule with a single slot that is not an insertion: the compiler associates the inserted items with it by itself
+    # (warning 3533) when no association is written - also after ANY items have been prepended to the rule
+    real = [j for j, x in enumerate(items) if x.cls is not None]
+    ins = [x for x in items if x.cls is None]
+    if len(real) == 1 and ins and r.caret is None and rng.random() < 0.6:
+        for x in ins:
+            x.assoc = [real[0] + 1]
+            x.assoc_implicit = True
     return r
 
 
